@@ -28,6 +28,8 @@ func init() {
 			{From: "C08.d", As: "C14.e", Why: "a failed or partial deletion must leave the pointers at the progress actually made, so that the retry re-runs the handlers only for what is still stored"},
 			{From: "C08.c", Match: "shutdown-steps", As: "C14.f", Why: "the parallel deletion reports the lowest failed height (results sorted ascending, first failure returned): a vetoed header below the reported height would end up under the tail and never be retried"},
 			{From: "C08.c", Match: "evaluation-loop", As: "C14.f", Why: "see shutdown-steps"},
+			{From: "C08.c", Match: "worker-stops-on-error", As: "C14.f", Why: "a handler's veto is the worker's last word: a worker that takes another job after a failed step overwrites the veto with the next success and the deletion reports nil"},
+			{From: "C08.c", Match: "worker-forgets-missing", As: "C14.f", Why: "see worker-stops-on-error: the recorded error is dropped only for the 'already missing' classification"},
 			{From: "C08.c", Match: "first-failed-result-returned", As: "C14.f", Why: "see shutdown-steps"},
 			{From: "C08.c", Match: "next-result-needs-success", As: "C14.f", Why: "see shutdown-steps"},
 		},
@@ -43,7 +45,58 @@ func runC14(c *an.Ctx) {
 	// --- C14.a recover containment of the registered wrapper
 	{
 		nWrap := 0
+		// the wrappers: the literals of OnDelete, and those a wrapper factory of the package returns when
+		// OnDelete hands it the user's function (`append(s.onDelete, recoverOnDelete(fn))`)
+		type wrapper struct {
+			cl *ssa.Function
+			fv string
+		}
+		var wrappers []wrapper
+		factories := map[*ssa.Function]bool{}
 		for _, cl := range d.onDelete.AnonFuncs {
+			wrappers = append(wrappers, wrapper{cl, "fn"})
+		}
+		if len(d.onDelete.Params) >= 2 {
+			wrappers = wrappers[:0]
+			for _, cl := range d.onDelete.AnonFuncs {
+				wrappers = append(wrappers, wrapper{cl, d.onDelete.Params[1].Name()})
+			}
+			an.Instrs(d.onDelete, func(in ssa.Instruction) {
+				call, isCall := in.(*ssa.Call)
+				if !isCall || len(call.Call.Args) != 1 || call.Call.Args[0] != ssa.Value(d.onDelete.Params[1]) {
+					return
+				}
+				g := an.StaticCallee(&call.Call)
+				if g == nil || g.Blocks == nil || g.Pkg != d.onDelete.Pkg || len(g.Params) != 1 {
+					return
+				}
+				// every return of the factory is one of its own literals
+				okF, n := true, 0
+				for _, b := range g.Blocks {
+					r, isRet := b.Instrs[len(b.Instrs)-1].(*ssa.Return)
+					if !isRet || len(r.Results) != 1 {
+						continue
+					}
+					n++
+					mc, isMC := r.Results[0].(*ssa.MakeClosure)
+					if !isMC {
+						okF = false
+						continue
+					}
+					if lit, isFn := mc.Fn.(*ssa.Function); !isFn || lit.Parent() != g {
+						okF = false
+					}
+				}
+				if okF && n > 0 {
+					factories[g] = true
+					for _, cl := range g.AnonFuncs {
+						wrappers = append(wrappers, wrapper{cl, g.Params[0].Name()})
+					}
+				}
+			})
+		}
+		for _, w := range wrappers {
+			cl := w.cl
 			nWrap++
 			ct := c.T(cl)
 			guard := an.HasRecoverGuard(cl)
@@ -77,7 +130,7 @@ func runC14(c *an.Ctx) {
 			// the wrapper calls the user function with its own arguments and returns its result
 			okCall := false
 			an.Instrs(cl, func(in ssa.Instruction) {
-				if call, isCall := in.(*ssa.Call); isCall && strings.Contains(ct.Of(call.Call.Value), "fv:fn") && len(call.Call.Args) == 2 && ct.Of(call.Call.Args[0]) == "p0" && ct.Of(call.Call.Args[1]) == "p1" {
+				if call, isCall := in.(*ssa.Call); isCall && strings.Contains(ct.Of(call.Call.Value), "fv:"+w.fv) && len(call.Call.Args) == 2 && ct.Of(call.Call.Args[0]) == "p0" && ct.Of(call.Call.Args[1]) == "p1" {
 					okCall = true
 				}
 			})
@@ -102,7 +155,11 @@ func runC14(c *an.Ctx) {
 				if b, isB := call.Call.Value.(*ssa.Builtin); isB && b.Name() == "append" {
 					args := an.VariadicArgs(call.Call.Args[1])
 					if len(args) == 1 {
-						if _, isMC := args[0].(*ssa.MakeClosure); isMC && an.LockHeld(d.onDelete, mutexOp(ot, "onDeleteMu", "Lock"), mutexOp(ot, "onDeleteMu", "Unlock"), st, nil) {
+						_, isMC := args[0].(*ssa.MakeClosure)
+						if fc, isFC := args[0].(*ssa.Call); isFC && factories[an.StaticCallee(&fc.Call)] {
+							isMC = true // the wrapper made by the factory
+						}
+						if isMC && an.LockHeld(d.onDelete, mutexOp(ot, "onDeleteMu", "Lock"), mutexOp(ot, "onDeleteMu", "Unlock"), st, nil) {
 							okThis = true
 						}
 					}
